@@ -355,10 +355,57 @@ def part_random(payload):
     return part
 
 
+def temp_mixed(known, part):
+    """temperature difference + point in another scale, operands of different widths: the difference is the operand that gets
+    rescaled and must not be squeezed through the (narrower) float type of the other operand"""
+    from unyt import unyt_array
+
+    for du, pu, f in (("delta_degF", "degC", Fr(5, 9)), ("delta_degC", "degF", Fr(9, 5))):
+        for dta in ("int64", "float64", "int32", "uint32"):
+            for dtb in ("int16", "int32", "float32", "float16", "int64", "uint16"):
+                xs = [100000, 250000, 7] if dta != "uint32" else [100000, 70000, 7]
+                ys = [20, 40, 1000]
+                for order in ("diff+point", "point+diff", "np.add", "np.add(out=)"):
+                    a = unyt_array(np.array(xs, dtype=dta), du)
+                    b = unyt_array(np.array(ys, dtype=dtb), pu)
+                    part.ev()
+                    try:
+                        with warnings.catch_warnings():
+                            warnings.simplefilter("ignore")
+                            if order == "diff+point":
+                                r = a + b
+                            elif order == "point+diff":
+                                r = b + a
+                            elif order == "np.add":
+                                r = np.add(a, b)
+                            else:
+                                r = unyt_array(np.zeros(3), pu)
+                                np.add(a, b, out=r)
+                    except Exception as e:
+                        part.count(f"temperature difference+point refused ({type(e).__name__})")
+                        continue
+                    part.nt(("temp-mixed", du, dta, dtb, order))
+                    got = np.asarray(r, dtype=float)
+                    want = [float(Fr(x) * f + y) for x, y in zip(xs, ys)]
+                    if str(r.units) not in (pu, "°C", "°F") and r.units != b.units:
+                        core.classify(known, part, f"C17:temp-mixed:result-unit:{order}", {"diff": du, "point": pu, "dtypes": [dta, dtb], "got": str(r.units)})
+                        continue
+                    wa = np.dtype("f" + str(np.dtype(dta).itemsize)) if np.dtype(dta).kind in "iu" else np.dtype(dta)
+                    if np.asarray(r).dtype.kind not in "fc":
+                        core.classify(known, part, f"C17:integer-result:temp-mixed:{order}", {"diff": du, "point": pu, "dtypes": [dta, dtb], "got": repr(r)[:80]})
+                    elif not np.all(np.isfinite(got)) and float(np.finfo(np.asarray(r).dtype).max) > 1e6:
+                        core.classify(known, part, f"C17:temp-mixed:overflow-in-a-wide-result:{order}", {"diff": du, "point": pu, "dtypes": [dta, dtb], "got": repr(r)[:100], "want": want})
+                    elif np.all(np.isfinite(got)) and not np.allclose(got, want, rtol=16 * float(np.finfo(wa).eps), atol=2.0 if dtb == "float16" else 1e-3 if dtb == "float32" else 1e-9):
+                        # the rescaled operand (the difference) keeps the precision of its own float type; the point operand may add its own rounding
+                        core.classify(known, part, f"C17:temp-mixed:difference-lost-precision:{order}", {"diff": du, "point": pu, "dtypes": [dta, dtb], "got": got.tolist(), "want": want})
+
+
 def part_grid(payload):
     """deterministic dtype x pair x route grid with edge values"""
     known = core.Known("C17")
     part = core.Part()
+    if payload.get("temp_mixed"):
+        temp_mixed(known, part)
     for dt in payload["dtypes"]:
         if dt in INT_DT:
             info = np.iinfo(dt)
@@ -396,7 +443,7 @@ def run(ctx):
         "overflow to +-inf of the prescribed float type is allowed",
         "the warning clause is asserted for to/in_units/to_value/convert_to_* (thresholds 2**24+1, 2**53+1 as documented)",
     ]
-    ctx.merge(core.pmap(MOD, "part_grid", [{"dtypes": [d]} for d in INT_DT + FLT_DT]))
+    ctx.merge(core.pmap(MOD, "part_grid", [{"dtypes": [d]} for d in INT_DT + FLT_DT] + [{"dtypes": [], "temp_mixed": True}]))
     n = ctx.pick(16000, 320000)
     ctx.merge(core.pmap(MOD, "part_random", [{"n": n // 16, "seed": ctx.seed * 1000 + i} for i in range(16)]))
 
